@@ -62,5 +62,7 @@ Print Assumptions C07_handshake.
 Example C07_cube :
   let F := [[0;3;2;1]; [4;5;6;7]; [0;1;5;4]; [1;2;6;5]; [2;3;7;6]; [3;0;4;7]]%nat in
   manifold_edges F = true /\ euler F = 2%Z /\ length (edges_lt F) = 12%nat
-  /\ nth 0 (neighbors_of F) [] = [2;3;4;5]%nat.
+  /\ nth 0 (neighbors_of F) [] = [2;3;4;5]%nat
+  /\ forallb (fun e => negb (Nat.eqb (fst e) (snd e))) (dedges_all F) = true      (* no degenerate edge: handshake applies *)
+  /\ list_sum (map (@length nat) F) = 24%nat.
 Proof. vm_compute. repeat split; reflexivity. Qed.
